@@ -2,13 +2,13 @@ package sym
 
 import (
 	"fmt"
-	"math/rand"
-	"os"
-	"sync"
 	"go/constant"
 	"go/token"
 	"go/types"
+	"math/rand"
+	"os"
 	"strings"
+	"sync"
 
 	"golang.org/x/tools/go/ssa"
 )
@@ -86,13 +86,13 @@ type Interp struct {
 	ex     *Explorer
 	solver *Solver
 
-	rand     *rand.Rand // non-nil: random-concrete mode (translator validation)
+	rand       *rand.Rand // non-nil: random-concrete mode (translator validation)
 	nthreads   int
 	schedRoots []Value
-	lastModel map[string]uint64
-	objNames map[*Value]string
-	ptrIDs   map[*Value]int
-	allocs   []*Term
+	lastModel  map[string]uint64
+	objNames   map[*Value]string
+	ptrIDs     map[*Value]int
+	allocs     []*Term
 
 	initDone map[*ssa.Package]bool
 	lenient  int // >0 while running std package initialisers leniently
